@@ -133,9 +133,12 @@ const (
 	fragAll
 	fragMixed
 	fragCount
+	// fragFewThenAll (huge streams only, not drawn by Intn(fragCount)): a few line-sized reads, then as much as the
+	// caller's buffer takes per read - small chunks and 10 MiB chunks in one stream
+	fragFewThenAll = fragCount
 )
 
-var fragNames = [...]string{"1B", "2B", "3B", "line", "line-1", "line+1", "geometric", "everything", "mixed"}
+var fragNames = [...]string{"1B", "2B", "3B", "line", "line-1", "line+1", "geometric", "everything", "mixed", "few-lines-then-everything"}
 
 func drawFragment(c *Chooser, style int, data []byte, off int) int {
 	rest := len(data) - off
@@ -190,13 +193,14 @@ type streamCfg struct {
 	faultWithData, eofWithData             bool
 	chunkPol, consPol                      int
 	zeroEvery                              bool // every other Read returns (0, nil)
+	fewLines                               int  // fragFewThenAll: number of leading line-sized reads
 }
 
 // RunStream is one run of E2: one drawn stream and configuration; with a drawn probability the reader fault is
 // injected at *every* byte offset of a short stream (exhaustive over offsets for that stream and configuration).
 func RunStream(r *Run) {
 	c := r.C
-	huge := r.thorough() && c.Intn("hugestream", 60) == 0
+	huge := c.Intn("hugestream", map[bool]int{true: 40, false: 160}[r.thorough()]) == 0
 	giant := !huge && c.Intn("giantline", map[bool]int{true: 80, false: 700}[r.thorough()]) == 0
 	var stream []byte
 	var want []*MV
@@ -236,7 +240,9 @@ func RunStream(r *Run) {
 		sc.frag = fragLine + c.Intn("fragbig", 5)
 	}
 	if huge {
-		sc.frag = []int{fragAll, fragGeo, fragLine}[c.Intn("fraghuge", 3)]
+		sc.frag = []int{fragAll, fragGeo, fragFewThenAll, fragFewThenAll}[c.Intn("fraghuge", 4)]
+		sc.fewLines = 1 + c.Intn("fewlines", 5)
+		r.stat("streams_above_10MiB", 1)
 	}
 	if giant {
 		sc.frag = []int{fragGeo, fragAll, fragLine, fragLineMinus}[c.Intn("fraggiant", 4)]
@@ -520,7 +526,14 @@ func streamExec(r *Run, stream []byte, want []*MV, desc string, sc streamCfg) {
 						rr = readResult{0, nil}
 						break
 					}
-					n := drawFragment(c, frag, stream, rd.off)
+					fr := frag
+					if fr == fragFewThenAll {
+						fr = fragAll
+						if reads-zeroReads < sc.fewLines {
+							fr = fragLine
+						}
+					}
+					n := drawFragment(c, fr, stream, rd.off)
 					if n > tk.Arg {
 						n = tk.Arg
 					}
